@@ -254,6 +254,52 @@ def intNormEq (a b : IExp) : IExp :=
   let l := stripPow1 (simpFull (sub a b))
   if firstCoeff l < 0 then stripPow1 (simpFull (mul (num (-1)) l)) else l
 
+/-! ### the normal-form shape of `simp_full` -/
+
+def lastF : IExp → IExp
+  | mul _ a => a
+  | t => t
+
+def lastM : IExp → IExp
+  | add _ m => m
+  | t => t
+
+def isAtomPow : IExp → Bool
+  | pow (atom _ _) _ => true
+  | _ => false
+
+/-- a body: `x ^ e` (atomic base) or a left-nested product of such with strictly increasing bases -/
+def isBodyI : IExp → Bool
+  | mul b a => isAtomPow a && isBodyI b && (cmpAtom (lastF b) a == .lt)
+  | t => isAtomPow t
+
+/-- a monomial: a non-zero numeral, or `c * body` with `c ≠ 0` -/
+def isMonoI : IExp → Bool
+  | num z => decide (z ≠ 0)
+  | mul (num c) b => decide (c ≠ 0) && isBodyI b
+  | _ => false
+
+/-- a polynomial: left-nested sum of monomials, strictly increasing under `compare_monomial`
+(numbers first) -/
+def isPolyI : IExp → Bool
+  | add p m => isPolyI p && isMonoI m && (cmpMono (lastM p) m == .lt)
+  | t => isMonoI t
+
+/-- what `simp_full` returns: `0` or a polynomial -/
+def isNFI (t : IExp) : Bool := t == num 0 || isPolyI t
+
+/-- the fragment on which `simp_full` expands everything: powers only of atoms (a power of a
+compound base is left as an atom by the code and is outside the canonicity claim) -/
+def atomicPowers : IExp → Bool
+  | atom _ _ => true
+  | num _ => true
+  | add a b => atomicPowers a && atomicPowers b
+  | sub a b => atomicPowers a && atomicPowers b
+  | mul a b => atomicPowers a && atomicPowers b
+  | neg a => atomicPowers a
+  | pow (atom _ _) _ => true
+  | pow _ _ => false
+
 /-- Value in ℤ. -/
 def evalI (ρ : Nat → Int) : IExp → Int
   | atom i _ => ρ i
